@@ -232,4 +232,30 @@ DerivedDiff(spc, c, res) ==
   IF ~DerivedClaimed(spc, c) THEN {}
   ELSE IF res.k = "raise" THEN {"raises"}
   ELSE ViewDiff(res.view, DerivedView(spc, c), DerivedWeightingClaimed(spc, c))
+
+(* ------------------------ chains of derived spaces (histories) -------------------------- *)
+(* Derived spaces are FUNCTIONS of the space they are taken from: whatever was computed from a *)
+(* space before (caches), the same chain of operations from an equal space gives an equal     *)
+(* space.  The expectation for a chain is therefore the fold of the single-step views.        *)
+(*   op = [op |-> "astype" | "real_space" | "complex_space" | "byaxis", dt, idx]              *)
+(*   e  = [k |-> "ok" | "unclaimed", view, wclaim]  (wclaim: the weighting is still claimed)  *)
+IsCplx(dt)  == dt \in {"c64", "c128"}
+FloatingX(dt) == dt \in {"f16", "f32", "f64", "c64", "c128"}
+\* the documented counterparts: real part type of a complex type; np.result_type(dtype, 1j) of a float type
+ARealDt(dt) == CASE dt = "c64" -> "f32" [] dt = "c128" -> "f64" [] OTHER -> dt
+ACplxDt(dt) == CASE dt \in {"f16", "f32", "c64"} -> "c64" [] dt \in {"f64", "c128"} -> "c128" [] OTHER -> "none"
+COp(op, dt, idx) == [op |-> op, dt |-> dt, idx |-> idx]
+AView(v, t) == [v EXCEPT !.dt = t, !.fld = FieldOfDtype(t)]
+AStep(e, o) ==
+  IF e.k # "ok" THEN e
+  ELSE LET v == e.view IN
+    CASE o.op = "astype" -> [k |-> "ok", view |-> AView(v, o.dt), wclaim |-> e.wclaim /\ (o.dt = v.dt \/ FloatingX(o.dt))]
+      [] o.op = "real_space" -> [k |-> "ok", view |-> AView(v, ARealDt(v.dt)), wclaim |-> e.wclaim]
+      [] o.op = "complex_space" ->
+           IF ACplxDt(v.dt) = "none" THEN [e EXCEPT !.k = "unclaimed"]     \* integers: no complex counterpart documented
+           ELSE [k |-> "ok", view |-> AView(v, ACplxDt(v.dt)), wclaim |-> e.wclaim]
+      [] o.op = "byaxis" -> [e EXCEPT !.view = [v EXCEPT !.shape = [k \in 1..Len(o.idx) |-> v.shape[o.idx[k]]]]]
+RECURSIVE AFold(_, _, _)
+AFold(e, path, k) == IF k > Len(path) THEN e ELSE AFold(AStep(e, path[k]), path, k + 1)
+ChainExpect(spc, path) == AFold([k |-> "ok", view |-> View(spc), wclaim |-> TRUE], path, 1)
 =============================================================================
